@@ -98,7 +98,7 @@ func cmdCheck(args []string) int {
 			continue
 		}
 		propSpecs = append(propSpecs, s) // every file of the property goes into the overlay
-		if *only != "" && s.Name != *only {
+		if *only != "" && s.Name != *only && !(strings.HasSuffix(*only, "*") && strings.HasPrefix(s.Name, strings.TrimSuffix(*only, "*"))) {
 			continue
 		}
 		if s.Tier != "" && s.Tier != *tier {
@@ -535,6 +535,18 @@ func writeEvidence(prop, tier string, seed int, results []*harnessResult, inconc
 	sort.Strings(anames)
 	if len(samples) == 0 {
 		samples = append(samples, "no path completed")
+	}
+	if mnames == nil {
+		mnames = []string{}
+	}
+	if fnames == nil {
+		fnames = []string{}
+	}
+	if inconclusive == nil {
+		inconclusive = []string{}
+	}
+	if known == nil {
+		known = []string{}
 	}
 	cov["explanation"] = "Bounded symbolic execution of the real functions (go/ssa of /repo's working tree, regenerated on this run) from in-package harnesses; each Assert and each reachable Go panic is an SMT obligation pc ∧ ¬property decided by z3 (portfolio fallback cvc5 / cvc5 --solve-bv-as-int / z3 5.1). 'discharged' counts obligations answered unsat for every value within the harness bounds; nothing is claimed outside the bounds and stubs listed under trusted_base/assumptions."
 	cov["evaluations"] = evals
